@@ -23,7 +23,7 @@ ASSUMPTIONS = ['first-order composition of small-parameter Helmert sets: chained
                '(second-order terms are < 1e-9 of the tolerances for ITRF sets)',
                'naming convention <from>_to_<to>[_suffix] as stated in geodepy/constants.py']
 EXHAUSTIVE = True
-REQUIRED_COUNTERS = ['catalogue_constants_used_before_enumeration', 'same_label_add_sequences', 'constants_checked', 'pairs_checked', 'triples_checked', 'neg_calls', 'add_calls', 'iers_calls']
+REQUIRED_COUNTERS = ['catalogue_constants_used_before_enumeration', 'derived_sets_edited_by_caller', 'same_label_add_sequences', 'constants_checked', 'pairs_checked', 'triples_checked', 'neg_calls', 'add_calls', 'iers_calls']
 NAME = re.compile(r'^([a-z]+[0-9]+)_to_([a-z]+[0-9]+)(_[a-z]+)?$')
 TOL = {'t': F(15, 100000), 's': F(15, 1000000), 'r': F(15, 1000000)}     # m, ppm, arcsec  (0.15 mm, 0.015 ppb, 0.015 mas)
 
@@ -56,12 +56,13 @@ def use_catalogue(ns, ctx, rnd):
         ctx.count('catalogue_constants_used_before_enumeration')
         core.unjudged(ctx, T.conform7, *pt, t)
         core.unjudged(ctx, T.conform7, *pt, t, V.copy())
-        core.unjudged(ctx, lambda a: -a, t)
+        chain_into(ns, ctx, core.unjudged(ctx, lambda a: -a, t), t)
         if isinstance(t.ref_epoch, datetime.date):
             for ep in (t.ref_epoch, datetime.date(2025, 7, 1), t.ref_epoch, datetime.date(1994, 1, 1), t.ref_epoch,
                        datetime.date(rnd.randint(1985, 2040), rnd.randint(1, 12), rnd.randint(1, 28))):
                 core.unjudged(ctx, T.conform14, *pt, ep, t)
-                core.unjudged(ctx, lambda a, b: a + b, t, ep)
+                leg = core.unjudged(ctx, lambda a, b: a + b, t, ep)
+                chain_into(ns, ctx, leg, t)
             core.unjudged(ctx, T.conform14, *pt, datetime.date(2021, 3, 4), t, V.copy())
     for ep in (datetime.date(2020, 1, 1), datetime.date(2018, 1, 1), datetime.date(2020, 1, 1)):
         core.unjudged(ctx, T.transform_atrf2014_to_gda2020, *pt, ep)
@@ -69,6 +70,24 @@ def use_catalogue(ns, ctx, rnd):
     core.unjudged(ctx, T.transform_gda2020_to_atrf2014, *pt, datetime.date(2020, 1, 1))
     core.unjudged(ctx, T.transform_mga94_to_mga2020, 53, 386352.3979, 7381850.7689, 586.0, V.copy())
     core.unjudged(ctx, T.transform_mga2020_to_mga94, 53, 386353.2343, 7381852.2986, 587.5, V.copy())
+
+
+def chain_into(ns, ctx, leg, t):
+    """A caller that chains transformations accumulates the next leg into the set it has just obtained from the catalogue
+    (negated, or re-referenced to the epoch it works at) and relabels it.  What the operators return is the caller's own
+    object; the catalogue must be as shipped afterwards.  Only the fields of the returned set itself are written - the
+    uncertainty object it refers to is shared with its source by design."""
+    if not isinstance(leg, ns.constants.Transformation):
+        return
+    ctx.count('derived_sets_edited_by_caller')
+    for p in hx.P14:
+        v = getattr(leg, p, None)
+        if isinstance(v, (int, float)):
+            setattr(leg, p, v + getattr(t, p) + 0.001)
+    leg.to_datum = 'CHAINED'
+    leg.from_datum = str(leg.from_datum) + '*'
+    if isinstance(leg.ref_epoch, datetime.date):
+        leg.ref_epoch = leg.ref_epoch + datetime.timedelta(days=1)
 
 
 def enumerate_catalogue(ns, ctx):
